@@ -15,10 +15,13 @@ theorem reindex_spec (w : World) (s : Sess) (hw : WInv w) (hs : w.sess = some s)
   unfold reindex
   by_cases hc : (s.indexable = some true && s.stale && s.linked) = true
   · rw [if_pos hc]
-    refine ⟨⟨⟨hw.disk.absent, hw.disk.uniform⟩, ?_, ?_⟩, ?_, fun _ _ => rfl, rfl, rfl, rfl, rfl⟩
+    refine ⟨⟨⟨hw.disk.absent, hw.disk.uniform⟩, ?_, ?_, ?_⟩, ?_, fun _ _ => rfl, rfl, rfl, rfl, rfl⟩
     · intro s' hs'; cases hs'
       exact ⟨hsi.noEvict, hsi.small, hsi.memShape, hsi.memSchema, hsi.fileShape, hsi.pendingShape, hsi.linkedShape⟩
     · intro _ _; rfl
+    · intro s' hs' hm'; cases hs'
+      have hl := (hsi.memShape hm').1
+      simp [hl] at hc
     · simp [absW, hs, absSess, absSchema]
   · rw [if_neg hc]
     have hweq : (⟨w.disk, some s⟩ : World) = w := by cases w; simp_all
@@ -104,7 +107,7 @@ theorem getFlight_spec (w : World) (s : Sess) (id : Int) (hw : WInv w) (hs : w.s
         generalize hg : s'.getItem d' i = g at hinv hfr hout
         obtain ⟨s'', o⟩ := g
         simp only at hinv hfr hout ⊢
-        refine ⟨⟨hw'.disk, ?_, ?_⟩, ?_⟩
+        refine ⟨⟨hw'.disk, ?_, ?_, ?_⟩, ?_⟩
         · intro t ht; cases ht; exact hinv
         · intro hxx hst
           apply hw'.index hxx
@@ -112,6 +115,7 @@ theorem getFlight_spec (w : World) (s : Sess) (id : Int) (hw : WInv w) (hs : w.s
           cases ht
           have := hst s'' rfl (by rw [hfr.linked]; exact hlt)
           rw [hfr.stale] at this; exact this
+        · exact MemStale.frame hw'.memStale (fun hm'' => (hsi'.memShape hm'').1) hfr
         · have habs2 : absW ⟨d', some s''⟩ = absW ⟨d', some s'⟩ := by
             have hmm : s'.mem = true → s'.linked = false := fun hm'' => (hsi'.memShape hm'').1
             have hv := hfr.visible d' hmm
